@@ -15,7 +15,8 @@ EXPLANATION = (
     'diagonal is set to NaN on a freshly allocated matrix form before the fancy-index expansion, so exactly pairs of '
     'copies of one condition are NaN; (AXIS-pair) one selection indexes matrices on both condition axes and extracts the '
     'pattern descriptors (RDM axis likewise); descriptors of the result derive from the source. RNG discipline is decided '
-    'under C04, purity/aliasing under C12. Entry-wise equality with the source and uniformity are NOT decided.')
+    'under C04, purity/aliasing under C12. Entry-wise equality with the source and uniformity are NOT decided.'
+    ' Also: (SEL-DESC) subsample / subsample_pattern find positions from the descriptor values in every arm.')
 ASSUMPTIONS = ['np.random.randint(low, high, size) draws uniformly from [low, high) with replacement',
                'get_matrices() allocates (contracts/effects.json override, guarded by the STATE obligation of C12)']
 FLOOR = 25
